@@ -40,7 +40,7 @@ def run(ctx):
     for e in [x for x in ev if x["op"] == "vrf.Prove"][:1] + [x for x in ev if x["op"] == "vrf.Verify"][:3]:
         ctx.samples.append(slim(e))
     bad = vlib.validate_trace(ctx, "EcvrfTrace", ev)
-    for e in vlib.reproduce(ctx, binp, bad):
+    for e in vlib.reproduce(ctx, binp, bad, history=ev):
         ctx.bad.append(dict(event=slim(e), reason="ECVRF Prove/Verify/decoding differs from RFC 9381 as specified (hash inputs, scalars, verdict or canonical decoding)"))
     return vlib.finish(ctx, LEVEL, RULE, ASSUME,
                        technique="TLA+ spec Ecvrf over an abstract group (TLC model) + real-size trace validation: dictated hash inputs, scalars recomputed with BigNat certificates, class-determined verdicts incl. crafted equation-satisfying proofs")
